@@ -1,7 +1,7 @@
 (** C19 literal model, proofs part 4: iteration order of the maps ([sperm]),
     [max_byte_pair_lit], and the refinement: every run of the literal loop from
     the initial statistics is a [Run] of the recount specification. *)
-From TU Require Import Base C19_Model C19_Proofs C19_Delta C19_NoDup C19_Lit C19_LitMaps C19_LitScan C19_LitProofs.
+From TU Require Import Base C19_Model C19_Proofs C19_Count C19_Check C19_Delta C19_NoDup C19_Lit C19_LitMaps C19_LitScan C19_LitProofs.
 From Coq Require Import Lia Permutation.
 Open Scope N_scope.
 Arguments N.add : simpl never.
@@ -313,4 +313,73 @@ Lemma replay_sound_l : forall c k steps, CorpusOK [] c -> replay k c (byte_pair_
 Proof.
   intros c k steps Hc H. apply (replay_sound_gen steps k c (byte_pair_stats_lit c) c [] Hc); [|reflexivity | apply rep_init_l | exact H].
   intros i p Hn. destruct i; discriminate.
+Qed.
+
+(** * what an accepting verdict of [trace_ok] means *)
+Lemma word_eqb_eq : forall a b, word_eqb a b = true -> a = b.
+Proof.
+  induction a as [|x a IH]; destruct b as [|y b]; cbn [word_eqb]; intros H; try reflexivity; try discriminate.
+  apply andb_true_iff in H as [H1 H2]. apply nlist_eqb_eq in H1. subst y. f_equal. now apply IH.
+Qed.
+Lemma tokl_eqb_eq : forall a b, tokl_eqb a b = true -> a = b.
+Proof.
+  induction a as [|x a IH]; destruct b as [|y b]; cbn [tokl_eqb]; intros H; try reflexivity; try discriminate.
+  apply andb_true_iff in H as [H1 H2]. apply nlist_eqb_eq in H1. subst y. f_equal. now apply IH.
+Qed.
+Lemma corpus_sub_incl : forall a b, corpus_sub a b = true -> incl a b.
+Proof.
+  intros a b H [w k] Hin. unfold corpus_sub in H. rewrite forallb_forall in H. specialize (H _ Hin).
+  apply existsb_exists in H as ([w' k'] & Hin' & E). cbn [fst snd] in E. apply andb_true_iff in E as [E1 E2].
+  apply word_eqb_eq in E1. apply N.eqb_eq in E2. now subst.
+Qed.
+
+(** if the trace clause of the correspondence accepts an implementation output
+    (and the counted words are distinct vocabulary entries), the table in that
+    output is the table of an accepted run of the specification — established by
+    replaying the literal model against the observed statistics, independently of
+    the relational test [accepts] *)
+Lemma trace_ok_sound_l : forall v out, NoDup (in_corpus v) -> trace_ok v out = true ->
+  exists ps, Run (in_corpus v) (num_merges v) ps /\ map merge ps = out_entries out.
+Proof.
+  intros v out Hnd H. unfold trace_ok in H.
+  set (t := v_nth 5 out) in *. set (c0 := v_corpus (v_nth 0 t)) in *. set (steps := v_list v_step (v_nth 2 t)) in *.
+  repeat (apply andb_true_iff in H as [H ?]).
+  match goal with Hp : corpus_perm _ _ = true |- _ => unfold corpus_perm in Hp; repeat (apply andb_true_iff in Hp as [Hp ?]) end.
+  match goal with Hl : Nat.eqb (length c0) _ = true |- _ => apply Nat.eqb_eq in Hl; rename Hl into Hlen end.
+  assert (Hi1 : incl c0 (in_corpus v)) by now apply corpus_sub_incl.
+  assert (Hi2 : incl (in_corpus v) c0) by now apply corpus_sub_incl.
+  assert (Hperm : Permutation c0 (in_corpus v)).
+  { apply Permutation_sym. apply NoDup_Permutation_bis; [exact Hnd | lia | exact Hi2]. }
+  assert (Hok : CorpusOK [] c0).
+  { intros w k Hin. apply (in_corpus_ok v w k). now apply Hi1. }
+  exists (map (fun s : ostep => fst (fst s)) steps). split.
+  - eapply Run_perm; [|exact Hperm]. now apply replay_sound_l.
+  - rewrite map_map. symmetry. now apply tokl_eqb_eq.
+Qed.
+
+(** everything proved about runs of the specification holds of the literal loop *)
+Lemma train_lit_table_l : forall c k o, CorpusOK [] c -> LRun c (byte_pair_stats_lit c) k o ->
+  exists ps, o = Done ps /\ (length ps <= k)%nat /\ NoDup (map merge ps) /\
+    (forall i p, nth_error ps i = Some p ->
+       StepOK (state_after c (firstn i ps)) p /\
+       TokOK (map merge (firstn i ps)) (fst p) /\ TokOK (map merge (firstn i ps)) (snd p) /\
+       (2 <= length (merge p))%nat) /\
+    ((length ps < k)%nat -> Exhausted (state_after c ps)).
+Proof.
+  intros c k o Hc H. destruct (train_lit_refines_l c k o Hc H) as (ps & -> & Hr). exists ps. split; [reflexivity|].
+  destruct (run_table_wf_l c k ps Hc Hr) as [Hlen Hwf]. split; [exact Hlen|]. split; [eapply run_nodup_l; eassumption|]. split.
+  - intros i p Hn. split; [eapply run_entry_max_l; eassumption | now apply Hwf].
+  - now apply run_short_exhausted_l.
+Qed.
+
+Lemma train_lit_ok_l : forall c k, CorpusOK [] c ->
+  exists ps, train_lit k c (byte_pair_stats_lit c) = Done ps /\ Run c k ps.
+Proof. intros c k Hc. apply (train_lit_refines_l c k _ Hc). apply train_lit_lrun. Qed.
+
+Lemma replace_pair_lit_ok_p : forall c st p, Rep c st -> st_get st p <> None ->
+  exists chs, replace_pair_lit c p st = Ok (apply_pair c p, chs) /\ NoDup (map ch_idx chs) /\
+    (forall idx w nw k, In (idx, w, nw, k) chs <->
+       nth_error c idx = Some (w, k) /\ nw = replace_in_word p w /\ 0 < count_pair p (word_pairs w)).
+Proof.
+  intros c st p H1 H2. destruct (replace_pair_lit_ok_l c st p H1 H2) as (chs & A & B & C & _). now exists chs.
 Qed.
